@@ -251,12 +251,14 @@ def run(ctx, replay=None):
                         tid += 1
                         jobs.append((tid, kind, cfg, sh, cond, tol, ctx.seed * 1000 + sd))
     for sh in shapes_row:
-        for cond in conds:
+        for cond in (conds if thorough else conds + [1e3]):
             for tol in tols:
                 for sd in seeds:
                     if cond > 1 and min(sh) == 1:
                         continue
-                    for kind, cfg in (("rsp_row", {"block": 2, "max_iter": 300}), ("rsp", {"block": 3, "solver": "qr", "max_iter": 300})):
+                    for kind, cfg in (("rsp_row", {"block": 2, "max_iter": 300}), ("rsp", {"block": 3, "solver": "qr", "max_iter": 300}),
+                                      # single-row sketches (1 x 1 Gram solves) and blocks as large as the matrix, small budget
+                                      ("rsp_row", {"block": 1, "max_iter": 80}), ("rsp_row", {"block": sh[0], "max_iter": 60})):
                         tid += 1
                         jobs.append((tid, kind, cfg, sh, cond, tol, ctx.seed * 1000 + sd))
     events = par.pmap(_run, jobs, chunk=1)
